@@ -4,6 +4,7 @@ use crate::resp::{run_resp, HeadOut, Reads, RespCase};
 use crate::respgen::{interesting_offsets, segment};
 use crate::rng::Rng;
 use crate::script::hex;
+use crate::send::{run_send, BodyR, FinalObs, ProxyCfg, SendCase};
 
 const TCHARS: &[u8] = b"!#$%&'*+-.^_`|~0123456789abcdefghijklmnopqrstuvwxyzABCDEFGHIJKLMNOPQRSTUVWXYZ";
 
@@ -257,6 +258,35 @@ pub fn generate(seed: u64, tier: &str, sink: &mut Sink) {
                 h => Err(("valid-head-rejected".to_string(), format!("max_headers {}: a head with {} fields gave {:?}", mh, nfields, h))),
             };
             sink.push(Case { tags: vec!["kind=limit-size".into(), format!("max_headers={}", if mh > 100_000 { "huge".to_string() } else { mh.to_string() })], op: case.op_line(), impl_line: out.line(), oracle: o });
+        }
+    }
+    // the same for a response that reaches the client through a proxy (plain http, absolute-form request): what the
+    // proxy relays — or says itself, a 407 included — is a response like any other, status and fields reported
+    // as sent (seed C04-seed13: a 407 on that route turned into a connect error, its fields lost)
+    for st in [200u16, 401, 403, 404, 407, 407, 502, 503, 511, 305] {
+        for with_proxy in [true, false] {
+            let wire = format!("HTTP/1.1 {} X\r\nProxy-Authenticate: Basic realm=\"p\"\r\nX-A: b\r\nContent-Length: 2\r\n\r\nno", st).into_bytes();
+            let case = SendCase {
+                method: "GET".into(),
+                url: "http://origin.test/x".into(),
+                follow: false,
+                max_redirections: 5,
+                max_headers: 100,
+                compress: false,
+                proxy: ProxyCfg { http: if with_proxy { Some("http://pu:pw@proxy.test:3128".into()) } else { None }, https: None, no_proxy: vec![] },
+                params: vec![],
+                pre: vec![],
+                body: BodyR::Empty,
+                post: vec![],
+                hops: vec![(vec![crate::script::Seg::Data(wire)], None)],
+                plain_tunnel: false,
+            };
+            let obs = run_send(&case);
+            let o = match &obs.fin {
+                FinalObs::Ok(s, _) if *s == st => obs.resend_check("relayed"),
+                f => Err(("status-code".to_string(), format!("status {} {} reported as {:?}", st, if with_proxy { "relayed by a proxy" } else { "sent by the origin" }, f))),
+            };
+            sink.push(Case { tags: vec!["kind=status-via-proxy".into(), format!("proxy={}", with_proxy)], op: case.op_line(&obs), impl_line: obs.line(), oracle: o });
         }
     }
     let n = if thorough { 40_000 } else { 3000 };
